@@ -2,6 +2,9 @@ package sx
 
 import (
 	"fmt"
+	"strconv"
+	"strings"
+	"go/token"
 	"go/types"
 	"hash/fnv"
 	"math/big"
@@ -30,6 +33,7 @@ func strCode(s string) BigVal {
 func registerExtraModels(P *Program) {
 	registerRevocationModels(P)
 	registerEncodingModels(P)
+	registerFsModels(P)
 	m := P.models
 	// cbor.Marshal: an injective structural encoding of the Go value (kinds, lengths,
 	// field names, strings, integers; gabi big.Int by magnitude, as its MarshalBinary does)
@@ -388,4 +392,171 @@ func (ex *Exec) cborFlatten(v Value, t types.Type, es *[]derElem, depth int) {
 	default:
 		ex.unsupported("cbor.Marshal of %T", v)
 	}
+}
+
+// ---------- a small POSIX file model (C18) ----------
+
+type fsFile struct {
+	Exists  *smt.Term // Bool
+	Mode    *smt.Term // permission bits
+	HasData *smt.Term // Bool: key material was written
+	Created bool      // created by this process (fchmod cannot fail then)
+}
+
+func (ex *Exec) fsGet(name string) *fsFile {
+	if f, ok := ex.fs[name]; ok {
+		return f
+	}
+	f := &fsFile{Exists: smt.False, Mode: smt.I64(0), HasData: smt.False}
+	ex.fs[name] = f
+	return f
+}
+
+func registerFsModels(P *Program) {
+	m := P.models
+	const (
+		oCREATE = 0x40
+		oEXCL   = 0x80
+		oTRUNC  = 0x200
+	)
+	m["os.OpenFile"] = func(ex *Exec, fn *ssa.Function, args []Value) (Value, bool) {
+		name, ok := args[0].(string)
+		flag, ok2 := term(args[1]).ConstInt64()
+		if !ok || !ok2 {
+			ex.unsupported("os.OpenFile with symbolic name or flags")
+		}
+		perm := term(args[2])
+		f := ex.fsGet(name)
+		ex.stubs["POSIX model of os.OpenFile/Chmod/Write/Close: O_EXCL fails on an existing file; a created file gets perm &^ umask; an existing file keeps its mode; fchmod sets the mode"] = true
+		if ex.branch(f.Exists) {
+			if flag&oCREATE != 0 && flag&oEXCL != 0 {
+				return Tuple{Pointer{}, ex.freshError("file exists")}, true
+			}
+			if flag&oTRUNC != 0 {
+				f.HasData = smt.False
+			}
+		} else {
+			if flag&oCREATE == 0 {
+				return Tuple{Pointer{}, ex.freshError("no such file")}, true
+			}
+			f.Exists = smt.True
+			f.HasData = smt.False
+			f.Created = true
+			k := intKind{false, 9}
+			f.Mode = ex.bitwise(token.AND_NOT, smt.Mod(perm, smt.I64(512)), ex.umask(), k)
+		}
+		ex.cellSeq++
+		return Tuple{Pointer{C: &Cell{ID: ex.cellSeq, V: &Opaque{Kind: "os.File", Data: name}}}, Iface{}}, true
+	}
+	fileOf := func(ex *Exec, v Value) *fsFile {
+		p, ok := v.(Pointer)
+		if !ok || p.C == nil {
+			ex.goPanic("nil *os.File")
+		}
+		o, ok := p.C.V.(*Opaque)
+		if !ok || o.Kind != "os.File" {
+			ex.unsupported("method on unknown *os.File")
+		}
+		return ex.fsGet(o.Data.(string))
+	}
+	m["(*os.File).Chmod"] = func(ex *Exec, fn *ssa.Function, args []Value) (Value, bool) {
+		f := fileOf(ex, args[0])
+		// fchmod may fail on a pre-existing file (e.g. it belongs to another user)
+		if !f.Created && ex.branch(smt.Var(ex.fresh("chmodFails"), smt.Bool, nil, nil)) {
+			return ex.freshError("chmod"), true
+		}
+		f.Mode = smt.Mod(term(args[1]), smt.I64(512))
+		return Iface{}, true
+	}
+	m["(*os.File).Write"] = func(ex *Exec, fn *ssa.Function, args []Value) (Value, bool) {
+		f := fileOf(ex, args[0])
+		f.HasData = smt.True
+		return Tuple{smt.I64(int64(args[1].(Slice).Len)), Iface{}}, true
+	}
+	m["(*os.File).Close"] = func(ex *Exec, fn *ssa.Function, args []Value) (Value, bool) {
+		fileOf(ex, args[0])
+		return Iface{}, true
+	}
+	m["os.Open"] = func(ex *Exec, fn *ssa.Function, args []Value) (Value, bool) {
+		name, ok := args[0].(string)
+		if !ok {
+			ex.unsupported("os.Open with symbolic name")
+		}
+		if _, ok := ex.fileContent[name]; !ok {
+			return Tuple{Pointer{}, ex.freshError("no such file")}, true
+		}
+		ex.cellSeq++
+		return Tuple{Pointer{C: &Cell{ID: ex.cellSeq, V: &Opaque{Kind: "os.File", Data: name}}}, Iface{}}, true
+	}
+	m["io.ReadAll"] = func(ex *Exec, fn *ssa.Function, args []Value) (Value, bool) {
+		i := args[0].(Iface)
+		p, _ := i.V.(Pointer)
+		if p.C == nil {
+			ex.goPanic("io.ReadAll on nil reader")
+		}
+		o, ok := p.C.V.(*Opaque)
+		if !ok || o.Kind != "os.File" {
+			ex.unsupported("io.ReadAll on %T", p.C.V)
+		}
+		content := ex.fileContent[o.Data.(string)]
+		return Tuple{ex.convert(content, types.Typ[types.String], types.NewSlice(byteType)), Iface{}}, true
+	}
+	// xml.Unmarshal: the decoder is reflection-driven and not encoded. Documents produced by the
+	// harness helper vpxKeyXML are tokens "VPKEYXML:<nbits>"; decoding one fills a PublicKey with
+	// arbitrary values whose modulus has exactly nbits bits (no <n> element when nbits is 0).
+	m["encoding/xml.Unmarshal"] = func(ex *Exec, fn *ssa.Function, args []Value) (Value, bool) {
+		data := args[0].(Slice)
+		bs := make([]byte, data.Len)
+		for i := range bs {
+			c, ok := term(ex.load(data.A.E[data.Off+i])).ConstInt64()
+			if !ok {
+				ex.unsupported("xml.Unmarshal of symbolic bytes")
+			}
+			bs[i] = byte(c)
+		}
+		doc := string(bs)
+		if !strings.HasPrefix(doc, "VPKEYXML:") {
+			return ex.freshError("xml: syntax error"), true
+		}
+		nbits, _ := strconv.Atoi(strings.TrimPrefix(doc, "VPKEYXML:"))
+		dst := args[1].(Iface)
+		so, ok := dst.V.(Pointer).C.V.(*StructObj)
+		st, ok2 := dst.T.(*types.Pointer).Elem().Underlying().(*types.Struct)
+		if !ok || !ok2 {
+			ex.unsupported("xml.Unmarshal into %s", dst.T)
+		}
+		ex.stubs["encoding/xml.Unmarshal is a stub: it fills the key struct with arbitrary values (modulus of the requested bit length, or none)"] = true
+		for i := 0; i < st.NumFields(); i++ {
+			switch st.Field(i).Name() {
+			case "N":
+				if nbits > 0 {
+					lo := smt.Pow2Big(uint(nbits - 1))
+					hi := new(big.Int).Sub(smt.Pow2Big(uint(nbits)), big.NewInt(1))
+					n := ex.fresh("xmlN")
+					ex.noteVar(n)
+					so.F[i].V = ex.newBig(BigVal{I: smt.Var(n, smt.Int, lo, hi)})
+				}
+			case "Z", "S":
+				so.F[i].V = ex.newBig(BigVal{I: ex.freshInt("xml"+st.Field(i).Name(), big.NewInt(0), nil)})
+			case "R":
+				sl := ex.makeSlice(st.Field(i).Type().Underlying().(*types.Slice).Elem(), 2, 2)
+				for k := 0; k < 2; k++ {
+					sl.A.E[k].V = ex.newBig(BigVal{I: ex.freshInt("xmlR", big.NewInt(0), nil)})
+				}
+				so.F[i].V = sl
+			}
+		}
+		return Iface{}, true
+	}
+	m["encoding/xml.MarshalIndent"] = func(ex *Exec, fn *ssa.Function, args []Value) (Value, bool) {
+		sl := ex.makeSlice(byteType, 8, 8)
+		return Tuple{sl, Iface{}}, true
+	}
+}
+
+func (ex *Exec) umask() *smt.Term {
+	if ex.umaskT == nil {
+		ex.umaskT = smt.I64(0o022)
+	}
+	return ex.umaskT
 }
